@@ -348,7 +348,7 @@ func c01Hostile() []string {
 
 func TestC01(t *testing.T) {
 	rec := start(t, "C01", "exploration",
-		"G1: programs from seven structured generators, rendered to tokens and hit by 0-3 mutations (delete / duplicate / swap a token, replace a token by a keyword, splice a control keyword as a statement at any statement boundary regardless of context, insert an arbitrary byte or punctuation, truncate), with 0-2 selectors from a pool that includes match blocks executing exit / next / print, and inputs that are the generator's own document or hostile streams (empty, whitespace, truncated, garbage, JSONL, stray brackets, huge numbers, invalid UTF-8). G2 (complete): {next, exit, break, continue, return, return 5} x {BEGIN, END, BEGINFILE, ENDFILE, pattern body, pattern expression via a function, function body, match expression body via a function, match block body, a match block in a while condition / in each clause of a for header / in a for-in iterable / in a method argument, selector via a match block} x {bare, inside while / for / for-in / if} x {no input value, two values, two documents}, each also through the binary with and without -o -. G3: arbitrary byte strings, byte edits of G1 renderings, and hostile constants (nests of ( [ { ! - match to depth 20000, runaway recursion and doubling loops under the cost budget, limits, cyclic values, pathological regexes). Oracle: the error returned by lang.EvalProgram is nil, SyntaxError, RuntimeError or JsonError; nothing is recovered by recover(); the process survives (in-flight file protocol); every error satisfies the C12 line invariant; sampled cases through the binary: exit status 0 or 1, stderr non-empty iff 1, no panic / fatal error / signal. A run stopped by the cost budget (200k units, verif hook) is inconclusive and counted. Non-trivial: the program parsed and evaluated something, or failed to parse beyond its first token, or is a G2 case. distinct = distinct (program, selectors, input).")
+		"G1: programs from seven structured generators, rendered to tokens and hit by 0-3 mutations (delete / duplicate / swap a token, replace a token by a keyword, splice a control keyword as a statement at any statement boundary regardless of context, insert an arbitrary byte or punctuation, truncate), with 0-2 selectors from a pool that includes match blocks executing exit / next / print, and inputs that are the generator's own document or hostile streams (empty, whitespace, truncated, garbage, JSONL, stray brackets, huge numbers, invalid UTF-8). G2 (complete): {next, exit, break, continue, return, return 5} x {BEGIN, END, BEGINFILE, ENDFILE, pattern body, pattern expression via a function, function body, match expression body via a function, match block body, a match block in a while condition / in each clause of a for header / in a for-in iterable / in a method argument, selector via a match block} x {bare, inside while / for / for-in / if} x {no input value, two values, two documents}, each also through the binary with and without -o -. G3: arbitrary byte strings, byte edits of G1 renderings, and hostile constants (nests of ( [ { ! - match to depth 20000, runaway recursion and doubling loops under the cost budget, limits, cyclic values, pathological regexes). G4: every byte prefix of a program text (up to 400 bytes; hand-written texts full of dotted numbers, and random layouts of the C13 generators) as a program and, up to 80 bytes, as a selector. Oracle: the error returned by lang.EvalProgram is nil, SyntaxError, RuntimeError or JsonError; nothing is recovered by recover(); the process survives (in-flight file protocol); every error satisfies the C12 line invariant; sampled cases through the binary: exit status 0 or 1, stderr non-empty iff 1, no panic / fatal error / signal. A run stopped by the cost budget (200k units, verif hook) is inconclusive and counted. Non-trivial: the program parsed and evaluated something, or failed to parse beyond its first token, or is a G2 case. distinct = distinct (program, selectors, input).")
 	defer rec.Finish()
 	rec.Assume("the cost-budget hook (build tag verif) only ever stops a run early; it adds no behaviour")
 	rec.Replayer("outcome", func(raw json.RawMessage) error {
@@ -449,6 +449,40 @@ func TestC01(t *testing.T) {
 		if msg != "" {
 			rec.Pending("outcome", c, string(c.Prog), msg)
 			rt.Fatalf("%s\nprogram: %q", msg, prog)
+		}
+	})
+	// every byte prefix of a program text (a text that stops anywhere: inside a number,
+	// after a dot, inside a string, an operator or a keyword) as a program and, when
+	// short, as a selector
+	check(rec, "outcome-prefixes", scale(120, 12000), func(rt *rapid.T) {
+		var text string
+		if rapid.IntRange(0, 2).Draw(rt, "prefixsource") == 0 {
+			text = rapid.SampledFrom([]string{
+				"{ x[1.5] = 2.25 ; print $[0.5], 1.e, 7.floor() }", "$ > 1.5 { print 3. }", "BEGIN { printf(\"%5.2f|%-3s\", 1.25, 'é') ; x = .5 }",
+				"BEGIN { a = [1, 2.0, 3.75][1.] ; o = {k: 0.1}.k ; print a / 2. ~ /1\\.5/ }", "{ print $.a.b[0].c , $[0 - 1.0] , -2.5.round() , 1e3 , 0x10 , 1_0 }",
+			}).Draw(rt, "dotted")
+		} else {
+			base, _ := c13Base(rt)
+			r := ast.Render(base.Prog, ast.Minimal)
+			text = r.Join(gen.NewRandLayout(rt)).Src
+		}
+		if len(text) > 400 {
+			start := rapid.IntRange(0, len(text)-400).Draw(rt, "window")
+			text = text[start : start+400]
+		}
+		for cut := 0; cut <= len(text); cut++ {
+			c := &C01Case{Prog: ast.BS(text[:cut]), Input: []ast.BS{ast.BS(`[1,{"a":2}]`)}, Gen: "G4 byte prefix"}
+			msg, class := c01Check(c)
+			record(c, class, "G4-prefix")
+			if msg == "" && cut <= 80 && cut > 0 {
+				c = &C01Case{Prog: ast.BS("{ print }"), Sels: []ast.BS{ast.BS(text[:cut])}, Input: []ast.BS{ast.BS(`[1,{"a":2}]`)}, Gen: "G4 byte prefix as a selector"}
+				msg, class = c01Check(c)
+				record(c, class, "G4-prefix-selector")
+			}
+			if msg != "" {
+				rec.Pending("outcome", c, string(c.Prog), msg)
+				rt.Fatalf("%s\nprogram: %q selectors %q", msg, c.Prog, c.Sels)
+			}
 		}
 	})
 	_ = gen.AllBin
